@@ -18,7 +18,7 @@ LEVEL_TEXT = (
     'computation.')
 
 FLOORS = {'C02-R1': 20, 'C02-R2': 12, 'C02-R3': 9, 'C02-R4': 4, 'C02-R5': 10, 'C01-R1': 3, 'C01-R2': 3,
-          'C01-R3': 12, 'C01-R4': 8, 'C01-R5': 3, 'C01-R7': 5, 'C01-R9': 3, 'C01-R10': 4, 'C10-R1': 8, 'C10-R3': 5, 'C05-R3': 2, 'C05-R4': 2, 'C05-R5': 3}
+          'C01-R3': 12, 'C01-R4': 8, 'C01-R5': 3, 'C01-R7': 5, 'C01-R9': 3, 'C01-R10': 4, 'C10-R1': 8, 'C10-R3': 5, 'C05-R3': 2, 'C05-R4': 2, 'C05-R5': 3, 'C11-R1': 14}
 
 
 def r1_polarity(ctx, cb):
@@ -463,6 +463,12 @@ def run(ctx):
     ctx.doc('C05-R5', 'on open_count == 0 the worker notifies all and closes the market before returning')
     with ctx.rule('C05-R3', 'pop'):
         c05.r3_r4_r5_pop(ctx, F)
+    # "a discovery is reported for an always property only if a reachable state violates it": the terminal-state
+    # rule reports whatever bit is still set, so only eventually properties may ever get a bit
+    import c11
+    ctx.doc('C11-R1', 'eventually bits are set by the position in Model::properties(), only for Expectation::Eventually, '
+                      'cleared only when the condition held')
+    c11.r1_bits(ctx, F)
     # "DFS with symmetry" is one of the quantified strategies: its verdicts are exact only if the
     # representative is one consistent permutation of the state and keys the visited set (C10)
     import c10
